@@ -43,14 +43,52 @@ func meaningDiffers(src []byte) string {
 		}
 		return false
 	}
+	// operand of a variable-variable `$`: T_VARIABLE, another `$…`, or `{ … }`; returns the index after it
+	var afterOperand func(i int) int
+	afterOperand = func(i int) int {
+		switch {
+		case id(i) == int(tokVariable):
+			return i + 1
+		case id(i) == '$':
+			return afterOperand(i + 1)
+		case id(i) == '{':
+			d := 0
+			for k := i; k < len(toks); k++ {
+				if id(k) == '{' {
+					d++
+				} else if id(k) == '}' {
+					d--
+					if d == 0 {
+						return k + 1
+					}
+				}
+			}
+		}
+		return len(toks) + 1
+	}
 	for i := range toks {
 		switch {
-		case id(i) == '$': // $$a, ${expr}
-			return "variable-variable"
-		case id(i) == int(tokObjectOperator) && (id(i+1) == int(tokVariable) || id(i+1) == '{' || id(i+1) == '$'):
-			return "dynamic-property"
-		case id(i) == int(tokPaamayim) && id(i+1) == int(tokVariable) && isFollow(i+2):
-			return "static-property-then-access"
+		case id(i) == '$' && isFollow(afterOperand(i+1)): // $$a['b'], ${'a'}->b …
+			return "variable-variable-then-access"
+		case id(i) == int(tokObjectOperator) && id(i+1) == int(tokVariable) && (id(i+2) == '[' || id(i+2) == '{'):
+			return "dynamic-property-then-offset"
+		case id(i) == int(tokPaamayim) && id(i+1) == int(tokVariable) && (id(i+2) == '[' || id(i+2) == '{'):
+			// A::$b['c'](): changed meaning; plain A::$b[1] is only *nested* differently by this library's php5 grammar
+			d := 0
+			k := i + 2
+			for ; k < len(toks); k++ {
+				if id(k) == '[' || id(k) == '{' {
+					d++
+				} else if id(k) == ']' || id(k) == '}' {
+					d--
+					if d == 0 {
+						break
+					}
+				}
+			}
+			if id(k+1) == '(' {
+				return "static-property-offset-call"
+			}
 		case id(i) == int(tokList) && id(i+1) == '(' && id(i+2) == ')':
 			return "empty-list"
 		case id(i) == int(token.T_YIELD) || id(i) == int(token.T_YIELD_FROM):
@@ -103,6 +141,9 @@ func evalC10(src []byte, cfg string) (o Outcome) {
 			what = "structure"
 		}
 		site := "differs:" + what + ":" + kind
+		if what == "structure" && staticMemberDim(src) {
+			site = "differs:php5-static-member-dim"
+		}
 		if what == "tokens-or-positions" {
 			switch {
 			case strings.Contains(string(src), "<<<") && strings.Contains(a[lo:], "CloseHeredocTkn"):
@@ -153,4 +194,18 @@ var chainSources = []string{
 	"<?php \"$a->b $a[1] {$a->b->c} {$a[1][2]} {$a->b()} ${a} ${a[1]}\"; `$a->b`; <<<A\n$a->b $a[1] {$a->b->c}\nA;\n",
 	"<?php $a->b->c->d(1)->e[2]->f(3, 4)[5]->g; $this->a->b(); self::a()->b; static::$a->b; parent::a();",
 	"<?php clone $a->b; print $a->b->c; @$a->b; (int)$a->b; -$a->b; !$a->b->c; $a->b instanceof C; $a->b ? $a->c : $a->d; $a->b ?: $a->c;",
+}
+
+// staticMemberDim: `X::$v[…]` / `X::$v{…}` occurs in the source
+func staticMemberDim(src []byte) bool {
+	toks, _, pan := lexAll(src, 7, 4)
+	if pan != "" {
+		return false
+	}
+	for i := 0; i+2 < len(toks); i++ {
+		if toks[i].ID == tokPaamayim && toks[i+1].ID == tokVariable && (toks[i+2].ID == '[' || toks[i+2].ID == '{') {
+			return true
+		}
+	}
+	return false
 }
